@@ -83,6 +83,15 @@ func itemText(it interface{}, sb *[]string) {
 // guided script: the op sequence that consumes the item in the intended way.
 func guidedScript(r *hx.Rng, it interface{}, ops *[]string) {
 	switch x := it.(type) {
+	case rlp.RawValue:
+		// a hostile header: poke it with every method, then carry on as if nothing happened
+		n := 1 + r.Intn(3)
+		for i := 0; i < n; i++ {
+			*ops = append(*ops, pickS(r, "k", "b", "b", "r", "r", "l", "l", "a", "a", "u64", "u8", "t"))
+		}
+		if r.Chance(1, 3) {
+			*ops = append(*ops, pickS(r, "b", "a", "e", "l"))
+		}
 	case []byte:
 		switch r.Intn(8) {
 		case 0:
@@ -273,6 +282,168 @@ func malformed(r *hx.Rng) []byte {
 	}
 	out = append(out, body...)
 	return out
+}
+
+// hostile returns a long-form string or list header that declares a huge or boundary size,
+// followed by a few bytes. near is (roughly) the number of bytes around it, so that sizes
+// 2^64-k straddle "k bytes of the enclosing list already consumed".
+func hostile(r *hx.Rng, near int) []byte {
+	ss := r.Pick(8, 8, 8, 8, 8, 7, 6, 5, 4, 3, 2, 1)
+	max := ^uint64(0)
+	if ss < 8 {
+		max = uint64(1)<<(8*uint(ss)) - 1
+	}
+	var sz uint64
+	switch r.Intn(12) {
+	case 0:
+		sz = max
+	case 1, 2, 3:
+		sz = max - uint64(r.Intn(near+6)) // 2^64-k around the bytes consumed so far
+	case 4:
+		sz = max - uint64(r.Intn(300))
+	case 5:
+		sz = max/2 + 1 // 2^63 (or the top bit of a shorter size)
+	case 6:
+		sz = max/2 + 1 - uint64(r.Intn(3)) + uint64(r.Intn(3))
+	case 7:
+		sz = uint64(1) << uint(r.Pick(56, 55, 48, 40, 32, 31, 24, 16))
+	case 8:
+		sz = uint64(near) + uint64(r.Intn(5))
+	case 9:
+		sz = uint64(r.Pick(55, 56, 57, 255, 256))
+	case 10:
+		sz = r.U64()
+	default:
+		sz = max - uint64(r.Intn(12))
+	}
+	sz &= max
+	tag := byte(0xb7)
+	if r.Bool() {
+		tag = 0xf7
+	}
+	out := append([]byte{tag + byte(ss)}, beBytes(sz, ss)...)
+	body := r.Bytes(r.Pick(0, 0, 1, 2, 9, 20))
+	if tag == 0xf7 {
+		for i := range body {
+			body[i] = []byte{0x00, 0x01, 0x80, 0xc0, 0x7f}[r.Intn(5)]
+		}
+	}
+	return append(out, body...)
+}
+
+// plant puts raw at a random position of a random list of the tree (descending with
+// probability 1/2 at every list), so that it sits at any nesting depth, after any number
+// of already consumed siblings. The root is wrapped in a list when it is a string.
+func plant(r *hx.Rng, it interface{}, raw rlp.RawValue) interface{} {
+	l, ok := it.([]interface{})
+	if !ok {
+		if r.Bool() {
+			return []interface{}{it, raw}
+		}
+		return []interface{}{raw, it}
+	}
+	var lists []int
+	for i, e := range l {
+		if _, ok := e.([]interface{}); ok {
+			lists = append(lists, i)
+		}
+	}
+	if len(lists) > 0 && r.Bool() {
+		i := lists[r.Intn(len(lists))]
+		c := append([]interface{}(nil), l...)
+		c[i] = plant(r, l[i], raw)
+		return c
+	}
+	p := r.Intn(len(l) + 1)
+	c := append([]interface{}(nil), l[:p]...)
+	c = append(c, raw)
+	c = append(c, l[p:]...)
+	return c
+}
+
+// shapeTy: a Go type whose decoder walks exactly this tree (so that decoding gets as far
+// as the planted header, whatever the depth), with a spread of leaf decoders.
+func shapeTy(r *hx.Rng, it interface{}) *Ty {
+	switch x := it.(type) {
+	case rlp.RawValue:
+		switch r.Intn(9) {
+		case 0:
+			return &Ty{K: "S", E: &Ty{K: "bytes"}}
+		case 1:
+			return &Ty{K: "S", E: &Ty{K: "any"}}
+		case 2:
+			return &Ty{K: "R", Fs: []Field{{"", &Ty{K: "bytes"}}}}
+		case 3:
+			return &Ty{K: "a", N: 32}
+		case 4:
+			return &Ty{K: "P", E: &Ty{K: "bytes"}}
+		}
+		return &Ty{K: pickS(r, "bytes", "str", "any", "raw", "big", "u64")}
+	case []byte:
+		return &Ty{K: pickS(r, "bytes", "str", "any", "raw")}
+	case []interface{}:
+		if len(x) > 8 || r.Chance(1, 4) {
+			return &Ty{K: "S", E: &Ty{K: pickS(r, "any", "raw", "bytes", "str")}}
+		}
+		t := &Ty{K: "R"}
+		for _, e := range x {
+			t.Fs = append(t.Fs, Field{"", shapeTy(r, e)})
+		}
+		if r.Chance(1, 4) && len(x) > 0 {
+			// the last elements through a tail slice
+			k := r.Intn(len(x))
+			t.Fs = append(t.Fs[:k], Field{"tail", &Ty{K: "S", E: &Ty{K: pickS(r, "any", "raw", "bytes")}}})
+		}
+		return t
+	}
+	panic("shapeTy")
+}
+
+// nestedHostile emits one well-formed tree with one hostile header planted somewhere inside,
+// through the generic, raw, Stream (limited, explicit limit, unlimited) and typed entry points.
+func nestedHostile(rn *runner, r *hx.Rng) {
+	base := randItem(r, 3, false)
+	if r.Chance(1, 3) {
+		base = []interface{}{} // the classic: the header is the only element
+		if r.Bool() {
+			base = []interface{}{[]interface{}{}}
+		}
+	}
+	benc, _ := rlp.EncodeToBytes(base)
+	if len(benc) > 400 {
+		base = []interface{}{strBytes(r, r.Pick(0, 1, 3))}
+		benc, _ = rlp.EncodeToBytes(base)
+	}
+	h := hostile(r, len(benc))
+	tree := plant(r, base, rlp.RawValue(h))
+	enc, err := rlp.EncodeToBytes(tree)
+	if err != nil {
+		panic(err)
+	}
+	eh := hx.Hex(enc)
+	rn.do("any " + eh)
+	rn.do("anyp " + eh)
+	rn.do("split " + eh)
+	if _, c, _, err := rlp.Split(enc); err == nil {
+		rn.do("count " + hx.Hex(c))
+		rn.do("split " + hx.Hex(c))
+	}
+	var g []string
+	guidedScript(r, tree, &g)
+	g = append(g, pickS(r, "k", "e", "b", "a"))
+	gs := strings.Join(g, ",")
+	// more data after the value: an unlimited stream (Decode from an io.Reader) must not eat it
+	trail, _ := rlp.EncodeToBytes(randItem(r, 1, false))
+	withTrail := hx.Hex(append(append([]byte(nil), enc...), trail...))
+	rn.do("stream auto " + eh + " " + gs)
+	rn.do("stream unl " + eh + " " + gs)
+	rn.do("stream unl " + withTrail + " " + gs + ",a,k")
+	rn.do("stream lim" + strconv.Itoa(len(enc)+r.Intn(40)) + " " + withTrail + " " + gs + ",a")
+	rn.do("stream " + pickS(r, "auto", "unl") + " " + eh + " l," + strings.Join(randScript(r), ","))
+	for k := 0; k < 3; k++ {
+		rn.do("dec " + shapeTy(r, tree).String() + " " + eh)
+	}
+	rn.do("dec " + pickS(r, "S,bytes", "S,str", "S,any", "S,raw", "S,S,bytes", "S,S,any", "any", "S,big", "S,P,bytes", "R1,bytes", "R2,u64,bytes", "R1,tail,S,bytes", "R1,tail,S,raw", "S,a32") + " " + eh)
 }
 
 // ---------------------------------------------------------------------------
@@ -632,6 +803,14 @@ func generate(rn *runner, r *hx.Rng, thorough bool) {
 		if r.Chance(1, 3) {
 			rn.do("dec " + pickS(r, "bytes", "str", "raw", "big", "u64", "S,bytes", "any", "S,raw") + " " + mh)
 		}
+	}
+	// (b') hostile headers at every nesting position
+	nHost := 2500
+	if thorough {
+		nHost = 25000
+	}
+	for i := 0; i < nHost; i++ {
+		nestedHostile(rn, r)
 	}
 	// (d) typed
 	var tys []*Ty
